@@ -55,7 +55,7 @@ def bmvOK (M : DMat α) (v : DVec α) : Bool := M.all (fun r => r.length == v.le
 
 /-! ### the helpers on batches: `torch.matmul` broadcasting
 
-`bmv(mat, vec) = matmul(mat, vec.unsqueeze(-1)).squeeze(-1)`: the batch shapes `mat.shape[:-2]`, `vec.shape[:-1]` are
+`bmv(mat, vec) = matmul(mat, vec.unsqueeze(-1)).squeeze(-1)` after the shape assertions of the code: the batch shapes `mat.shape[:-2]`, `vec.shape[:-1]` are
 broadcast by `torch.matmul` (its documented contract, an external kernel: `Batch.broadcastShapes` / `Batch.proj` of C06's
 model) and the item kernel runs on every pair. `bvv` is the same with the outer product; `bvmv` is two matmuls
 `(lvec.mT @ mat) @ rvec`, i.e. two broadcasts in a row. A batch is `Batch.T item` (row-major items). -/
@@ -67,17 +67,62 @@ def bcast2 {β γ δ : Type} (f : β → γ → δ) (x : Batch.T β) (y : Batch.
   | some out =>
     some ⟨out, fun k => f (x.get (Batch.proj x.shape (Batch.unravel out k))) (y.get (Batch.proj y.shape (Batch.unravel out k)))⟩
 
-def bmvB (M : Batch.T (DMat α)) (v : Batch.T (DVec α)) : Option (Batch.T (DVec α)) := bcast2 bmv M v
-def bvvB (l r : Batch.T (DVec α)) : Option (Batch.T (DMat α)) := bcast2 bvv l r
-def bvmvB (l : Batch.T (DVec α)) (M : Batch.T (DMat α)) (r : Batch.T (DVec α)) : Option (Batch.T α) :=
-  (bcast2 DMat.vecMul l M).bind fun lm => bcast2 DVec.dot lm r
+/-- a batch of vectors: a tensor of shape `shape ++ [len]` (row-major items) -/
+structure VT (α : Type) where
+  shape : Batch.Shape
+  len : Nat
+  data : Nat → DVec α
 
-/-- one batched LTI forward: `bmv(A, x) + bmv(B, u) (+ c)`, every `+` broadcasting as well -/
-def affineB (A B : Batch.T (DMat α)) (c : Option (Batch.T (DVec α))) (x u : Batch.T (DVec α)) : Option (Batch.T (DVec α)) :=
-  (bmvB A x).bind fun ax => (bmvB B u).bind fun bu => (bcast2 DVec.add ax bu).bind fun z =>
+/-- a batch of matrices: a tensor of shape `shape ++ [rows, cols]`. (The code's `mat.ndim >= 2`, `vec.ndim >= 1` assertions
+hold by construction of these two types.) -/
+structure MT (α : Type) where
+  shape : Batch.Shape
+  rows : Nat
+  cols : Nat
+  data : Nat → DMat α
+
+def VT.t (v : VT α) : Batch.T (DVec α) := ⟨v.shape, v.data⟩
+def MT.t (M : MT α) : Batch.T (DMat α) := ⟨M.shape, M.data⟩
+/-- the items really have the declared core dimensions -/
+def VT.WF (v : VT α) : Prop := ∀ k, (v.data k).length = v.len
+def MT.WF (M : MT α) : Prop := ∀ k, (M.data k).length = M.rows ∧ ∀ r ∈ M.data k, r.length = M.cols
+
+/-- `bmv(mat, vec)`: `assert mat.shape[-1] == vec.shape[-1]`, then `torch.matmul` broadcasting -/
+def bmvG (M : MT α) (v : VT α) : Option (VT α) :=
+  if M.cols = v.len then (bcast2 bmv M.t v.t).map fun z => ⟨z.shape, M.rows, z.data⟩ else none
+
+/-- `bvv(lvec, rvec)`: no assertion in the code, any two lengths -/
+def bvvG (l r : VT α) : Option (MT α) := (bcast2 bvv l.t r.t).map fun z => ⟨z.shape, l.len, r.len, z.data⟩
+
+/-- `torch.atleast_1d` on the batch shape of a scalar-per-item result -/
+def atleast1d (s : Batch.Shape) : Batch.Shape := if s = [] then [1] else s
+
+/-- `bvmv(lvec, mat, rvec)`: `assert lvec.shape[-1] == mat.shape[-2] and mat.shape[-1] == rvec.shape[-1]`, two matmuls
+(two broadcasts in a row), then `torch.atleast_1d`: an unbatched call returns shape `(1,)` -/
+def bvmvG (l : VT α) (M : MT α) (r : VT α) : Option (Batch.T α) :=
+  if l.len = M.rows ∧ M.cols = r.len then
+    ((bcast2 DMat.vecMul l.t M.t).bind fun lm => bcast2 DVec.dot lm r.t).map fun z => ⟨atleast1d z.shape, z.data⟩
+  else none
+
+/-- `a + b` on the last dimension as torch does it: equal lengths, or one of them of length 1 is repeated -/
+def vaddB (a b : DVec α) : DVec α :=
+  if a.length = b.length then DVec.add a b
+  else if b.length = 1 then a.map (fun x => x + b.getD 0 (k 0))
+  else if a.length = 1 then b.map (fun y => a.getD 0 (k 0) + y)
+  else []
+
+/-- `a + b` of two batches of vectors: the last dimensions and the batch shapes broadcast -/
+def addG (a b : VT α) : Option (VT α) :=
+  match Batch.bdim a.len b.len with
+  | none => none
+  | some l => (bcast2 vaddB a.t b.t).map fun z => ⟨z.shape, l, z.data⟩
+
+/-- one batched LTI forward: `bmv(A, x) + bmv(B, u) (+ c)` -/
+def affineG (A B : MT α) (c : Option (VT α)) (x u : VT α) : Option (VT α) :=
+  (bmvG A x).bind fun ax => (bmvG B u).bind fun bu => (addG ax bu).bind fun z =>
     match c with
     | none => some z
-    | some c => bcast2 DVec.add z c
+    | some c => addG z c
 
 /-! ## 1. The clock -/
 
@@ -92,6 +137,10 @@ deriving Repr, Inhabited, DecidableEq
 
 /-- what lands in the int64 buffer: truncation toward zero -/
 def TArg.trunc (a : TArg) : Int := Int.tdiv a.n a.d
+
+/-- a time the caller can actually write: positive denominator (`d = 0` is a totalisation artefact: `Int.tdiv _ 0 = 0`;
+`inf`, `nan` are not representable, the code raises on them) -/
+def TArg.valid (a : TArg) : Prop := 0 < a.d
 
 inductive Ev
   | call                        -- `sys(x, u)`: forward, then the hook
@@ -290,6 +339,19 @@ def eval (env : Nat → α) : Fn → α
   | .sin a => Scalar.sin (eval env a)
   | .cos a => Scalar.cos (eval env a)
   | .pow a n => npow (eval env a) n
+
+/-- every constant has a positive denominator (`const _ a 0` is a totalisation artefact: it evaluates to 0 over `ℝ` and
+`BigF`; the driver rejects it and the generator never produces it) -/
+def wf : Fn → Bool
+  | .const _ _ b => decide (0 < b)
+  | .var _ => true
+  | .add a b => wf a && wf b
+  | .sub a b => wf a && wf b
+  | .mul a b => wf a && wf b
+  | .neg a => wf a
+  | .sin a => wf a
+  | .cos a => wf a
+  | .pow a _ => wf a
 
 def zero : Fn := .const false 0 1
 def one : Fn := .const false 1 1
